@@ -22,14 +22,15 @@ import (
 // ---- Registry (C16) and the service half of C06 ----
 
 type regState struct {
-	w     *world.World
-	svc   *world.Svc
-	sc    map[string]*world.OpClient // service connections
-	ports map[string]string          // listener name -> port
-	hold  map[string]net.Listener    // ports the harness occupies to make a start fail
-	rng   *rand.Rand
-	seq   int
-	stuck bool
+	oldHTTP []*handlers.HTTP // HTTP listeners of earlier runs of the teamserver that still hold their ports
+	w       *world.World
+	svc     *world.Svc
+	sc      map[string]*world.OpClient // service connections
+	ports   map[string]string          // listener name -> port
+	hold    map[string]net.Listener    // ports the harness occupies to make a start fail
+	rng     *rand.Rand
+	seq     int
+	stuck   bool
 }
 
 // freePort hands out loopback ports from a range private to this harness process (shards run in
@@ -63,6 +64,14 @@ func freePort() string {
 		}
 	}
 	panic("harness-error: no free port in range")
+}
+
+// epSpelling: every second name writes its endpoint with a leading slash ("/n2-ep"): the same endpoint, spelled as a path
+func epSpelling(name string) string {
+	if strings.HasSuffix(name, "2") {
+		return "/"
+	}
+	return ""
 }
 
 func uaOf(v int) string { return fmt.Sprintf("VerifAgent/%d.0", v) }
@@ -127,7 +136,7 @@ func (s *regState) project() map[string]any {
 	eps := []string{}
 	for _, e := range t.Endpoints {
 		if e.Endpoint != "ext" {
-			eps = append(eps, e.Endpoint)
+			eps = append(eps, strings.TrimPrefix(e.Endpoint, "/")) // "/n2-ep" and "n2-ep" are one endpoint
 		}
 	}
 	for _, x := range [][]string{db, adv, port, agents, lsts, eps, extras} {
@@ -225,7 +234,7 @@ func RunRegistry(behs [][]Step, tr *Trace, env Env, sum *Summary) {
 						})
 					case "ext":
 						call(func() {
-							err = w.TS.ListenerStart(handlers.LISTENER_EXTERNAL, handlers.ExternalConfig{Name: a, Endpoint: a + "-ep"})
+							err = w.TS.ListenerStart(handlers.LISTENER_EXTERNAL, handlers.ExternalConfig{Name: a, Endpoint: epSpelling(a) + a + "-ep"})
 						})
 					}
 					ok = err == nil
@@ -352,10 +361,47 @@ func RunRegistry(behs [][]Step, tr *Trace, env Env, sum *Summary) {
 					case "listener":
 						s.svcSend(a, map[string]any{"Head": map[string]any{"Type": "Listener"}, "Body": map[string]any{"Type": "ListenerAdd", "Listener": map[string]any{"Name": x, "Agent": "any", "Items": []any{}}}})
 					case "exc2":
-						s.svcSend(a, map[string]any{"Head": map[string]any{"Type": "Listener", "RequestID": "r1"}, "Body": map[string]any{"Type": "ListenerAddExC2", "Name": x, "Endpoint": x + "-ep"}})
+						s.svcSend(a, map[string]any{"Head": map[string]any{"Type": "Listener", "RequestID": "r1"}, "Body": map[string]any{"Type": "ListenerAddExC2", "Name": x, "Endpoint": epSpelling(x) + x + "-ep"}})
 					}
 					time.Sleep(80 * time.Millisecond)
 					ok = fmt.Sprint(s.project()) != before
+				case "Restart":
+					// the old process' HTTP listeners: still bound ("busy": a lingering process holds the ports while the new one
+					// starts), or stopped first so that the ports are free
+					for _, l := range w.TS.Listeners {
+						if h, isHTTP := l.Config.(*handlers.HTTP); isHTTP {
+							s.oldHTTP = append(s.oldHTTP, h)
+						}
+					}
+					if b == "free" {
+						stopped := make(chan struct{}, len(s.oldHTTP))
+						for _, h := range s.oldHTTP {
+							go func(h *handlers.HTTP) {
+								defer func() { recover(); stopped <- struct{}{} }()
+								if h.Server != nil {
+									h.Stop()
+								}
+							}(h)
+						}
+						for range s.oldHTTP {
+							<-stopped
+						}
+						s.oldHTTP = nil
+						for _, l := range s.hold {
+							l.Close()
+						}
+					}
+					if pan, to := guarded(func() { must(w.Restart()) }, 40*time.Second); pan != "" || to {
+						if strings.Contains(pan, "harness-error") {
+							panic(pan)
+						}
+						fail(map[bool]string{true: "hang", false: "panic"}[to], firstLines(pan, 14))
+					}
+					if b == "busy" {
+						time.Sleep(7 * time.Second) // a listener that could not bind is given up after a few seconds: what happens to it then?
+					} else {
+						time.Sleep(300 * time.Millisecond) // ListenAndServe of the restored listeners runs in goroutines
+					}
 				case "SvcLeaveTogether":
 					// every service connection is cut at the same moment
 					start := make(chan struct{})
